@@ -5,7 +5,7 @@ CONSTANTS MaxWraps = 4
           Wide = FALSE
           FixedCode = TRUE
           Modes = {"bind", "heap", "memo", "chain", "exc", "args", "deco"}
-          MaxExcChain = 2
+          MaxExcChain = 1
           MaxBindings = 1
           MaxArgSteps = 0
           MaxDecoObjs = 3
